@@ -25,7 +25,7 @@ SUM_KEYS = ["evaluations", "traces_validated_against_impl", "steps", "timing_dis
 
 
 def run(res):
-    core.std_proof_coverage(res, "C07")
+    core.std_proof_coverage(res, "C07", extra_obligations=1)
     # SURVEYOR; the model of the repaired code (survey_model true): no timer for SURVEY-TIME 0.  survey_model false is the
     # code as found (zero timer: the survey expired at once), kept for the theorem C07_zero_survey_time_refuted
     l1.run(res, "C07", "survey", "Model.Survey Model.SurveyOracle", "(survey_model true)", "init", COOKED,
